@@ -151,7 +151,9 @@ def gen_program(profile, rng, idx):
     par = rng.choice(profile.pars)
     strat = rng.choice(profile.strategies)
     seed = rng.randint(1, 10 ** 9)
-    lines = [f"cap={cap} class={cls} par={par} seed={seed} strategy={strat} {profile.extra}".strip()]
+    # every third program: `thread::park` may return without an unpark (std documents spurious wake-ups), injected by the scheduler
+    spur = " spuriousp=80" if idx % 3 == 1 else ""
+    lines = [f"cap={cap} class={cls} par={par} seed={seed} strategy={strat} {profile.extra}{spur}".strip()]
     for t in range(nt):
         ops = []
         for k in range(rng.randint(*profile.ops)):
@@ -253,6 +255,9 @@ def mon_mutex(run, ords):
         elif kind == "guard":
             if holder != tid:
                 bad.append(f"event {i}: {tid} reached the protected state without holding the lock (holder {holder})")
+        elif kind in ("yield", "spin", "sleep", "park") and holder == tid:
+            # a critical section is straight-line code: whoever holds the channel lock never waits for anybody (C14, C17, C06)
+            bad.append(f"event {i}: {tid} waits ({kind}) while holding the channel lock")
     return bad
 
 
@@ -811,6 +816,15 @@ def run_linearizability(profile, seed, stats, runs_per_prog=6, workers=16):
     return fails
 
 
+def run_monitor(name, run, ctx):
+    """A monitor's findings on one run; a trace the monitor cannot even parse (the crate wrote through a wild pointer into the
+    harness's own output) is a failed run, not a crash of the check."""
+    try:
+        return list(ALL_MONITORS[name](run, ctx))
+    except (ValueError, IndexError, KeyError, TypeError) as ex:
+        return [f"the run's trace cannot be read ({type(ex).__name__}: {str(ex)[:80]!r}): output corrupted by the run itself"]
+
+
 def run_profile(profile, seed, monitors, oracles, stats, workers=16):
     """Generate profile.n programs from `seed`, run each, evaluate monitors.  Returns list of failure dicts."""
     rng = random.Random(seed * 1000003 + zlib.crc32(profile.name.encode()) % 1000)
@@ -828,7 +842,7 @@ def run_profile(profile, seed, monitors, oracles, stats, workers=16):
             if not ok:
                 bad.append((name, detail))
         for name in monitors:
-            for b in ALL_MONITORS[name](run, ctx):
+            for b in run_monitor(name, run, ctx):
                 bad.append((name, b))
         sig = hashlib.md5(" ".join(f"{t}{k}" for (t, k, a) in run.events if k in ("lock", "unlock", "st", "cas", "park", "unpark", "wwake", "ret")).encode()).hexdigest()
         kinds = Counter(k for (_, k, _) in run.events)
